@@ -337,6 +337,27 @@ def oracle(c):
         except ValueError:
             if key in rt:
                 return "ValueError although the combination is in the table"
+        if (len(c["entries"]) + c["n"][0][0]) % 3 == 0:
+            # an independent copy.deepcopy of the rule whose table the caller then edits (an entry for the probed
+            # combination added, changed or removed): each object answers with ITS OWN table, as read back from it
+            import copy
+            twin = copy.deepcopy(rule)
+            try:
+                if key in twin.rule_table and c["n"][2][2] % 2:
+                    del twin.rule_table[key]
+                else:
+                    twin.rule_table[key] = (rt.get(key, 0) or 0) + 1
+            except TypeError:
+                return None           # a read-only table view: nothing to check
+            for (nm, obj) in (("deep copy with its table edited", twin), ("original after its deep copy was edited", rule)):
+                own = dict(obj.rule_table)
+                try:
+                    got = obj(np.array(n), (1, 1), 1)
+                    if key not in own or own[key] != got:
+                        return "%s answered %s for key %s, its own rule_table says %s" % (nm, got, key, own.get(key, "absent"))
+                except ValueError:
+                    if key in own:
+                        return "%s: ValueError although the combination is in its own rule_table" % nm
     return None
 
 
